@@ -797,6 +797,21 @@ func (a *idxAnalysis) idxOf(x ast.Expr) string {
 		return a.idxOfVar(obj)
 	case *ast.IndexExpr:
 		if obj := a.varOf(t.X); obj != nil {
+			// a plain alias of another variable (a parameter copy of an inlined helper): the variable behind it
+			for k := 0; k < 4; k++ {
+				if _, seen := a.mapVal[obj]; seen || len(a.assigns[obj]) != 1 {
+					break
+				}
+				rhs := a.rhsFor(a.assigns[obj][0], obj)
+				if rhs == nil {
+					break
+				}
+				o2 := a.varOf(rhs)
+				if o2 == nil || o2 == obj || !types.Identical(o2.Type(), obj.Type()) {
+					break
+				}
+				obj = o2
+			}
 			if _, isMap := obj.Type().Underlying().(*types.Map); isMap {
 				return a.mapVal[obj]
 			}
